@@ -6,7 +6,7 @@ The REAL SinglePhaseModel / HomogenizationModel are driven with duck-typed therm
 `_getFluxes` evaluation is logged by wrapping methods at run time (raw fluxes before the boundary conditions, fluxes
 after them, dXdt, iterator input/output, postProcess output, setup output) and replayed through the model driver.
 The direct oracle evaluates the property on the logged implementation states, independently of the Lean model."""
-import contextlib, io, math, warnings
+import contextlib, io, math, os, traceback, warnings
 import numpy as np
 import vlib
 from vlib import Result, enc_list, enc_ilist, f2b, Toks, close
@@ -34,6 +34,17 @@ TRUSTED = ['NumPy slicing/negative-index/np.clip/np.sum semantics as modelled in
            'duck-typed thermodynamics stubs stand in for pycalphad in the quick tier']
 
 EPS = 2.220446049250313e-16
+
+
+class HarnessError(Exception):
+    """a thermodynamics stub of this harness failed (not the code under test)"""
+
+
+def _arrh(Q, T):
+    """bounded Arrhenius factor: temperature schedules may leave the physical range"""
+    if not (T == T) or T <= 0:
+        return 1.0
+    return math.exp(max(-40.0, min(40.0, -Q / R_GAS * (1 / T - 1 / 1200.0))))
 R_GAS = 8.314
 SUBST = ['FE', 'CR', 'NI', 'AL', 'CO', 'MO', 'W', 'TI']
 INTER = ['C', 'N']
@@ -165,7 +176,7 @@ class SingleStub:
         elif self.kind == 'table':
             D = self.table[int(abs(x[0]) * 15.999) % 16 if x[0] == x[0] else 0]
         else:
-            D = self.base * (1 + 0.3 * x[0]) * math.exp(-self.Q / R_GAS * (1 / T - 1 / 1200.0))
+            D = self.base * (1 + 0.3 * x[0]) * _arrh(self.Q, T)
         D = self.D0 * D
         return float(D[0, 0]) if self.E == 1 else np.array(D)
 
@@ -228,7 +239,7 @@ class HomStub:
             T = dof[0]; X = dof[1:]
             v = self.M0 * self.mtab[p, k] * (1 + self.mslope[p, k] * X[k])
             if self.kind == 'arrhenius':
-                v *= math.exp(-self.Q / R_GAS * (1 / T - 1 / 1200.0))
+                v *= _arrh(self.Q, T)
             elif self.kind == 'table':
                 v *= 1 + 0.5 * ((int(X[0] * 16) % 3) if X[0] == X[0] else 0)
             return v
@@ -443,7 +454,9 @@ def run_real(case, factory=None):
                         n = op[1]
                         m.solve(n * dt0 * op[2], solverType=stype, minDtFrac=1.0 / (3 * n), maxDtFrac=case['maxDtFrac'])
                 except Exception as e:
-                    import traceback
+                    fr = traceback.extract_tb(e.__traceback__)
+                    if fr and os.path.abspath(fr[-1].filename) == os.path.abspath(__file__) and fr[-1].name in ('getInterdiffusivity', 'getEq', 'f', '_arrh', '<lambda>'):
+                        raise HarnessError('stub %s raised %s: %s' % (fr[-1].name, type(e).__name__, e)) from None
                     rec['status'] = 'raised:%s:%s' % (type(e).__name__, str(e)[:80])
                     site = [l.strip() for l in traceback.format_exc().splitlines() if l.strip().startswith('File "%s' % vlib.REPO)]
                     rec['raised_at'] = site[-1] if site else None
